@@ -149,7 +149,7 @@ def run(ctx):
             continue
         for pos in (("only", "first", "last") if ctx.quick else ("only", "first", "middle", "last")):
             node, it = gen.vocab_doc(r, o, k, ai, pos)
-            gen.apply_order_rules(node, node.items, gopts)
+            gen.apply_gates(node, ctx.gated)
             res.count("vocab_irs")
             judge_ir(ctx, eng, [node], [lower, rnd], r, "vocab", slot=f"{o}.{k}:{a.kind}:{pos}")
     # ---- corpus: rewrite every non-empty gap
